@@ -1,6 +1,6 @@
 (* C01 — the job id is the canonical, order-independent hash of the state point value.
    This file only states theorems; proofs live in SV.C01Proofs / SV.Json / SV.Canon. *)
-From SV Require Import Base Json MD5 Canon CorrC01 C01Proofs.
+From SV Require Import Base Json MD5 Canon CanonChars CorrC01 C01Proofs.
 
 (* identical id for every key insertion order at every nesting level *)
 Theorem C01_order_independent : forall (frepr : fl -> str) v v',
@@ -18,6 +18,26 @@ Theorem C01_canon_injective_tokens : forall v v',
   tokens (norm v) = tokens (norm v') -> same_json v v'.
 Proof. exact canon_tokens_inj. Qed.
 Print Assumptions C01_canon_injective_tokens.
+
+(* CHARACTER LEVEL: the canonical JSON text determines the JSON value.  The hypotheses describe
+   Python's float.__repr__ on finite floats (number characters only, starts with a digit or '-',
+   injective, never an integer lexeme) and are validated on every oracle entry by the harness;
+   strings hold Unicode scalar values (no lone surrogates). *)
+Theorem C01_canon_injective : forall (frepr : fl -> str),
+  (forall f, forallb numchar (frepr f) = true) ->
+  (forall f, exists c t, frepr f = c :: t /\ (c = 45 \/ 48 <= c <= 57)%N) ->
+  (forall f g, frepr f = frepr g -> f = g) ->
+  (forall f z, frepr f <> dec_Z z) ->
+  forall v v', valid_json (norm v) = true -> valid_json (norm v') = true ->
+    canon frepr v = canon frepr v' -> same_json v v'.
+Proof. exact canon_injective. Qed.
+Print Assumptions C01_canon_injective.
+
+(* the escape of strings is uniquely decodable (prefix code with the closing quote as terminator) *)
+Theorem C01_string_lexeme_injective : forall s s' r r', valid_str s = true -> valid_str s' = true ->
+  quote s ++ r = quote s' ++ r' -> s = s' /\ r = r'.
+Proof. exact quote_prefix_free. Qed.
+Print Assumptions C01_string_lexeme_injective.
 
 (* lexemes: decimal integers are injective (character level) *)
 Theorem C01_int_lexeme_injective : forall a b, dec_Z a = dec_Z b -> a = b.
